@@ -16,6 +16,12 @@ pub fn check(tier: Tier) -> Check {
     let parts = vec![
         Part::new("C02/connack", json!({"full": t}), 0, tier.pick(40, 900)),
         Part::new("C02/connack-values", json!({}), 0, 60),
+        // the same on the second connection of a Context whose first one ended with a fragment of an
+        // inbound packet in the reader (the user's DISCONNECT / end-of-stream / a failed write came first)
+        Part::new("C02/connack-values", json!({"prelude": 11}), 0, 60),
+        Part::new("C02/connack-values", json!({"prelude": 3}), 0, 60),
+        Part::new("C02/values", json!({"prelude": 3}), 0, 120),
+        Part::new("C02/values", json!({"prelude": 4}), 0, 120),
         Part::new("C02/auth", json!({}), 0, 60),
         Part::new("C02/acks", json!({}), 0, tier.pick(40, 300)),
         Part::new("C02/suback", json!({}), 0, 60),
@@ -566,84 +572,7 @@ pub fn scenario(name: &str, params: &Value) -> Scenario {
             sys.finish();
             sys.report(ex, &["puback", "suback", "server-disconnect", "message-dispatched"]);
         }),
-        "C02/utf8-align" => Box::new(move |chz, ex| {
-            let k = chz.choose(4);
-            let ch = ['\u{00e9}', '\u{4e2d}', '\u{1f600}'][chz.choose(3)];
-            let total = [40usize, 100, 130, 300, 1100][chz.choose(5)];
-            let mut st: String = "abc"[..k].to_string();
-            while st.len() + ch.len_utf8() <= total {
-                st.push(ch);
-            }
-            let which = chz.choose(8);
-            let mut sys = Sys::new("C02", &name, chz);
-            sys.params = params.clone();
-            let rs = || vec![Prop::str(31, &st), Prop::user(&st, &st)];
-            if which == 0 {
-                // a refusing CONNACK
-                sys.connect_with(
-                    ConnectSpec::default(),
-                    SPacket::Connack { session_present: false, reason: 0x87, props: vec![Prop::str(31, &st), Prop::str(P_SERVER_REFERENCE, &st), Prop::user(&st, &st)] },
-                );
-                sys.m.hits.push("utf8-align");
-                return sys.report(ex, &["utf8-align"]);
-            }
-            sys.bring_up(vec![]);
-            match which {
-                1 => {
-                    sys.apply(Ev::Start(OpSpec::Publish(PublishSpec::simple(1, "t", b"x"))));
-                    sys.apply(Ev::Deliver(SPacket::Ack { ty: 4, pid: 1, reason: 0x97, props: rs(), form: 4 }));
-                }
-                2 => {
-                    sys.apply(Ev::Start(OpSpec::Publish(PublishSpec::simple(2, "t", b"x"))));
-                    sys.apply(Ev::Deliver(SPacket::Ack { ty: 5, pid: 1, reason: 0x91, props: rs(), form: 4 }));
-                }
-                3 => {
-                    sys.apply(Ev::Start(OpSpec::Publish(PublishSpec::simple(2, "t", b"x"))));
-                    sys.apply(Ev::Deliver(SPacket::Ack { ty: 5, pid: 1, reason: 0, props: vec![], form: 2 }));
-                    sys.apply(Ev::Deliver(SPacket::Ack { ty: 7, pid: 1, reason: 0x92, props: rs(), form: 4 }));
-                }
-                4 => {
-                    sys.apply(Ev::Deliver(SPacket::Disconnect {
-                        reason: 0x9c,
-                        props: vec![Prop::str(P_SERVER_REFERENCE, &st), Prop::str(31, &st), Prop::user(&st, &st)],
-                        form: 2,
-                    }));
-                }
-                5 => {
-                    sys.apply(Ev::Start(OpSpec::Subscribe(SubscribeSpec::simple("s"))));
-                    sys.apply(Ev::Deliver(SPacket::Suback { pid: 1, props: rs(), reasons: vec![0x80] }));
-                }
-                6 => {
-                    sys.apply(Ev::Start(OpSpec::Unsubscribe(UnsubscribeSpec::simple("s"))));
-                    sys.apply(Ev::Deliver(SPacket::Unsuback { pid: 1, props: rs(), reasons: vec![0x11] }));
-                }
-                _ => {
-                    sys.apply(Ev::Start(OpSpec::Subscribe(SubscribeSpec::simple("s"))));
-                    if !sys.dead {
-                        let ack = sys.ack_for(0, 0, "").unwrap();
-                        sys.apply(Ev::Deliver(ack));
-                        sys.apply(Ev::TakeStream(0));
-                    }
-                    sys.apply(Ev::Deliver(SPacket::Publish {
-                        dup: false,
-                        qos: 0,
-                        retain: false,
-                        topic: st.clone(),
-                        pid: None,
-                        props: vec![
-                            Prop::var(P_SUBSCRIPTION_ID, 1),
-                            Prop::str(P_RESPONSE_TOPIC, &st),
-                            Prop::str(P_CONTENT_TYPE, &st),
-                            Prop::user(&st, &st),
-                        ],
-                        payload: st.as_bytes().to_vec(),
-                    }));
-                }
-            }
-            sys.finish();
-            sys.m.hits.push("utf8-align");
-            sys.report(ex, &["utf8-align"]);
-        }),
+        "C02/utf8-align" => utf8_align("C02", name, params),
         "C02/lengths" => {
             let full = params["full"].as_bool().unwrap_or(false);
             Box::new(move |chz, ex| {
@@ -777,4 +706,86 @@ pub fn scenario(name: &str, params: &Value) -> Scenario {
             std::process::exit(2);
         }
     }
+}
+
+/// strings of 2-, 3- and 4-byte characters behind 0..3 ASCII bytes through every error / response type
+pub fn utf8_align(prop: &'static str, name: String, params: Value) -> Scenario {
+    Box::new(move |chz, ex| {
+            let k = chz.choose(4);
+            let ch = ['\u{00e9}', '\u{4e2d}', '\u{1f600}'][chz.choose(3)];
+            let total = [40usize, 100, 130, 300, 1100][chz.choose(5)];
+            let mut st: String = "abc"[..k].to_string();
+            while st.len() + ch.len_utf8() <= total {
+                st.push(ch);
+            }
+            let which = chz.choose(8);
+            let mut sys = Sys::new(prop, &name, chz);
+            sys.params = params.clone();
+            let rs = || vec![Prop::str(31, &st), Prop::user(&st, &st)];
+            if which == 0 {
+                // a refusing CONNACK
+                sys.connect_with(
+                    ConnectSpec::default(),
+                    SPacket::Connack { session_present: false, reason: 0x87, props: vec![Prop::str(31, &st), Prop::str(P_SERVER_REFERENCE, &st), Prop::user(&st, &st)] },
+                );
+                sys.m.hits.push("utf8-align");
+                return sys.report(ex, &["utf8-align"]);
+            }
+            sys.bring_up(vec![]);
+            match which {
+                1 => {
+                    sys.apply(Ev::Start(OpSpec::Publish(PublishSpec::simple(1, "t", b"x"))));
+                    sys.apply(Ev::Deliver(SPacket::Ack { ty: 4, pid: 1, reason: 0x97, props: rs(), form: 4 }));
+                }
+                2 => {
+                    sys.apply(Ev::Start(OpSpec::Publish(PublishSpec::simple(2, "t", b"x"))));
+                    sys.apply(Ev::Deliver(SPacket::Ack { ty: 5, pid: 1, reason: 0x91, props: rs(), form: 4 }));
+                }
+                3 => {
+                    sys.apply(Ev::Start(OpSpec::Publish(PublishSpec::simple(2, "t", b"x"))));
+                    sys.apply(Ev::Deliver(SPacket::Ack { ty: 5, pid: 1, reason: 0, props: vec![], form: 2 }));
+                    sys.apply(Ev::Deliver(SPacket::Ack { ty: 7, pid: 1, reason: 0x92, props: rs(), form: 4 }));
+                }
+                4 => {
+                    sys.apply(Ev::Deliver(SPacket::Disconnect {
+                        reason: 0x9c,
+                        props: vec![Prop::str(P_SERVER_REFERENCE, &st), Prop::str(31, &st), Prop::user(&st, &st)],
+                        form: 2,
+                    }));
+                }
+                5 => {
+                    sys.apply(Ev::Start(OpSpec::Subscribe(SubscribeSpec::simple("s"))));
+                    sys.apply(Ev::Deliver(SPacket::Suback { pid: 1, props: rs(), reasons: vec![0x80] }));
+                }
+                6 => {
+                    sys.apply(Ev::Start(OpSpec::Unsubscribe(UnsubscribeSpec::simple("s"))));
+                    sys.apply(Ev::Deliver(SPacket::Unsuback { pid: 1, props: rs(), reasons: vec![0x11] }));
+                }
+                _ => {
+                    sys.apply(Ev::Start(OpSpec::Subscribe(SubscribeSpec::simple("s"))));
+                    if !sys.dead {
+                        let ack = sys.ack_for(0, 0, "").unwrap();
+                        sys.apply(Ev::Deliver(ack));
+                        sys.apply(Ev::TakeStream(0));
+                    }
+                    sys.apply(Ev::Deliver(SPacket::Publish {
+                        dup: false,
+                        qos: 0,
+                        retain: false,
+                        topic: st.clone(),
+                        pid: None,
+                        props: vec![
+                            Prop::var(P_SUBSCRIPTION_ID, 1),
+                            Prop::str(P_RESPONSE_TOPIC, &st),
+                            Prop::str(P_CONTENT_TYPE, &st),
+                            Prop::user(&st, &st),
+                        ],
+                        payload: st.as_bytes().to_vec(),
+                    }));
+                }
+            }
+            sys.finish();
+            sys.m.hits.push("utf8-align");
+            sys.report(ex, &["utf8-align"]);
+        })
 }
